@@ -1,5 +1,5 @@
 From Coq Require Import List NArith Bool Arith Lia.
-From IdV Require Import Lib.Outcome Did.DidParse Did.IotaDid Proofs.DidProofs.
+From IdV Require Import Lib.Outcome Did.DidParse Did.IotaDid Proofs.DidProofs Proofs.DidUrlProofs Proofs.DidCompleteProofs.
 Import ListNotations.
 Open Scope N_scope.
 
@@ -42,9 +42,9 @@ Qed.
 Theorem iota_parse_shape s v : iota_parse s = Ok v ->
   tag_ok (iota_tag v) = true /\ net_ok (iota_network v) = true /\ iota_normal v
   /\ (v = iota_tag v \/ v = iota_network v ++ 58 :: iota_tag v)
-  /\ exists i, core_did_parse (map ascii_lower s) = Ok (IOTA, i) /\ v = iota_normalize i.
+  /\ exists i, core_did_parse (to_lower s) = Ok (IOTA, i) /\ v = iota_normalize i.
 Proof.
-  unfold iota_parse. destruct (core_did_parse (map ascii_lower s)) as [[m i]|e|] eqn:P; try discriminate.
+  unfold iota_parse. destruct (core_did_parse (to_lower s)) as [[m i]|e|] eqn:P; try discriminate.
   destruct (list_eqb m IOTA) eqn:Em; cbn [negb]; [|discriminate]. apply list_eqb_eq in Em. subst m.
   unfold denorm, iota_normalize, iota_tag, iota_network, iota_normal.
   destruct (split_colon i) as [[n t]|] eqn:S.
@@ -80,3 +80,209 @@ Proof.
   - exfalso. apply Nb. congruence.
   - exact Et.
 Qed.
+
+(* ---- lower-casing ---- *)
+Definition not_upper (c : N) : bool := negb (is_upper c).
+Definition lower_stable (c : N) : bool := (c <? 128) && negb (is_upper c).
+
+Lemma ascii_lower_not_upper c : not_upper (ascii_lower c) = true.
+Proof.
+  unfold not_upper, is_upper, ascii_lower.
+  destruct (N.leb_spec 65 c); destruct (N.leb_spec c 90); cbn [andb];
+  repeat match goal with |- context [?a <=? ?b] => destruct (N.leb_spec a b); try lia end; reflexivity.
+Qed.
+
+Lemma to_lower_cons2 c a r1 : to_lower (c :: a :: r1) =
+  if (c =? 196) && (a =? 176) then 105 :: 204 :: 135 :: to_lower r1
+  else match r1 with
+       | b :: r2 => if (c =? 226) && (a =? 132) && (b =? 170) then 107 :: to_lower r2 else ascii_lower c :: to_lower (a :: r1)
+       | [] => ascii_lower c :: to_lower (a :: r1)
+       end.
+Proof. destruct r1; reflexivity. Qed.
+
+Lemma to_lower_not_upper_n : forall n l, (length l <= n)%nat -> forallb not_upper (to_lower l) = true.
+Proof.
+  induction n as [|n IH]; intros l Hl.
+  - destruct l; [reflexivity|cbn in Hl; lia].
+  - destruct l as [|c [|a r1]]; [reflexivity|cbn [to_lower forallb]; rewrite ascii_lower_not_upper; reflexivity|].
+    cbn [length] in Hl. rewrite to_lower_cons2.
+    destruct ((c =? 196) && (a =? 176)).
+    + cbn [forallb]. change (not_upper 105) with true. change (not_upper 204) with true. change (not_upper 135) with true.
+      cbn [andb]. apply IH. lia.
+    + destruct r1 as [|b r2].
+      * cbn [forallb]. rewrite ascii_lower_not_upper. cbn [andb]. apply (IH [a]). cbn [length]. lia.
+      * destruct ((c =? 226) && (a =? 132) && (b =? 170)).
+        -- cbn [forallb]. change (not_upper 107) with true. cbn [andb]. apply IH. cbn [length] in *. lia.
+        -- cbn [forallb]. rewrite ascii_lower_not_upper. cbn [andb]. apply (IH (a :: b :: r2)). cbn [length] in *. lia.
+Qed.
+Lemma to_lower_not_upper l : forallb not_upper (to_lower l) = true.
+Proof. exact (to_lower_not_upper_n (length l) l (le_n _)). Qed.
+
+Lemma ascii_lower_stable c : lower_stable c = true -> ascii_lower c = c.
+Proof.
+  unfold lower_stable, is_upper, ascii_lower. intros H. apply andb_prop in H as [_ H]. apply negb_true_iff in H. rewrite H. reflexivity.
+Qed.
+Lemma stable_lt c : lower_stable c = true -> c < 128.
+Proof. unfold lower_stable. intros H. apply andb_prop in H as [H _]. apply N.ltb_lt. exact H. Qed.
+
+Lemma to_lower_stable_n : forall n l, (length l <= n)%nat -> forallb lower_stable l = true -> to_lower l = l.
+Proof.
+  induction n as [|n IH]; intros l Hl H.
+  - destruct l; [reflexivity|cbn in Hl; lia].
+  - destruct l as [|c [|a r1]]; [reflexivity| |].
+    + cbn [forallb] in H. apply andb_prop in H as [H _]. cbn [to_lower]. rewrite (ascii_lower_stable _ H). reflexivity.
+    + cbn [length] in Hl. pose proof H as H0. cbn [forallb] in H. apply andb_prop in H as [Hc H].
+      pose proof (stable_lt _ Hc) as Lc. rewrite to_lower_cons2.
+      replace (c =? 196) with false by (symmetry; apply N.eqb_neq; lia). cbn [andb].
+      assert (to_lower (a :: r1) = a :: r1) as E by (apply IH; [cbn [length]; lia|exact H]).
+      destruct r1 as [|b r2].
+      * rewrite (ascii_lower_stable _ Hc), E. reflexivity.
+      * replace (c =? 226) with false by (symmetry; apply N.eqb_neq; lia). cbn [andb].
+        rewrite (ascii_lower_stable _ Hc), E. reflexivity.
+Qed.
+Lemma to_lower_stable l : forallb lower_stable l = true -> to_lower l = l.
+Proof. exact (to_lower_stable_n (length l) l (le_n _)). Qed.
+
+(* ---- character classes of tags and network names ---- *)
+Lemma mid_lt128 c : char_method_id c = true -> c <? 128 = true.
+Proof.
+  unfold char_method_id, is_digit, is_lower, is_upper. intros H. apply N.ltb_lt.
+  repeat match type of H with context [?a <=? ?b] => destruct (N.leb_spec a b); try lia end;
+  repeat match type of H with context [?a =? ?b] => destruct (N.eqb_spec a b); try lia end; cbn in H; discriminate.
+Qed.
+Lemma hexdig_mid c : is_hexdig c = true -> char_method_id c = true.
+Proof.
+  unfold is_hexdig, char_method_id, is_digit, is_lower, is_upper. intros H.
+  repeat match type of H with context [?a <=? ?b] => destruct (N.leb_spec a b); try lia end;
+  repeat match goal with |- context [?a <=? ?b] => destruct (N.leb_spec a b); try lia end; cbn in *; try discriminate; reflexivity.
+Qed.
+Lemma lowdig_mid c : is_lower c || is_digit c = true -> char_method_id c = true.
+Proof. unfold char_method_id. intros H. apply orb_prop in H as [H|H]; rewrite H; rewrite ?orb_true_r; reflexivity. Qed.
+Lemma lowdig_not_colon c : is_lower c || is_digit c = true -> (58 =? c) = false.
+Proof.
+  unfold is_lower, is_digit. intros H. apply N.eqb_neq. intros <-. cbn in H. discriminate.
+Qed.
+
+Lemma tag_class t : tag_ok t = true -> forallb char_method_id t = true /\ t <> [].
+Proof.
+  unfold tag_ok. destruct t as [|z [|x r]]; try discriminate. intros H.
+  apply andb_prop in H as [H Hh]. apply andb_prop in H as [H _]. apply andb_prop in H as [Hz Hx].
+  apply N.eqb_eq in Hz, Hx. subst. split; [|discriminate]. cbn [forallb].
+  change (char_method_id 48) with true. change (char_method_id 120) with true. cbn [andb].
+  revert Hh. apply forallb_imp. exact hexdig_mid.
+Qed.
+Lemma net_class n : net_ok n = true -> forallb char_method_id n = true /\ n <> [] /\ existsb (N.eqb 58) n = false.
+Proof.
+  unfold net_ok. intros H. apply andb_prop in H as [H Hc]. apply andb_prop in H as [Hn _].
+  split; [revert Hc; apply forallb_imp; exact lowdig_mid|]. split; [destruct n; [discriminate|discriminate]|].
+  induction n as [|c n IH]; [reflexivity|]. cbn [forallb existsb] in *. apply andb_prop in Hc as [Hc1 Hc2].
+  rewrite (lowdig_not_colon _ Hc1). cbn [orb]. destruct n as [|c' n']; [reflexivity|]. apply IH; [reflexivity|exact Hc2].
+Qed.
+
+Lemma list_eqb_neq a b : a <> b -> list_eqb a b = false.
+Proof. intros H. destruct (list_eqb a b) eqn:E; [apply list_eqb_eq in E; contradiction|reflexivity]. Qed.
+
+Lemma normalize_normal v : iota_normal v -> iota_normalize v = v.
+Proof.
+  unfold iota_normal, iota_normalize. destruct (split_colon v) as [[n t]|]; [|reflexivity]. intros H. rewrite (list_eqb_neq _ _ H). reflexivity.
+Qed.
+
+Lemma stable_of v : forallb char_method_id v = true -> forallb not_upper v = true -> forallb lower_stable v = true.
+Proof.
+  induction v as [|c v IH]; [reflexivity|]. cbn [forallb]. intros H1 H2. apply andb_prop in H1 as [A1 B1]. apply andb_prop in H2 as [A2 B2].
+  unfold lower_stable at 1. rewrite (mid_lt128 _ A1). unfold not_upper in A2. rewrite A2. cbn [andb]. exact (IH B1 B2).
+Qed.
+
+(* an IOTA DID value in normal form with valid network and tag, written in lower case, parses to itself *)
+Lemma iota_parse_value v : forallb not_upper v = true -> iota_normal v -> tag_ok (iota_tag v) = true -> net_ok (iota_network v) = true ->
+  (v = iota_tag v \/ v = iota_network v ++ 58 :: iota_tag v) -> iota_parse (iota_to_string v) = Ok v.
+Proof.
+  intros Up Nv Tt Nn Hv.
+  destruct (tag_class _ Tt) as [Ct Nt]. destruct (net_class _ Nn) as [Cn [Nne _]].
+  assert (forallb char_method_id v = true /\ v <> []) as [Cv Nev].
+  { destruct Hv as [E|E]; rewrite E.
+    - auto.
+    - split; [|destruct (iota_network v); [contradiction|discriminate]]. rewrite forallb_app. rewrite Cn. cbn [forallb andb]. rewrite Ct. reflexivity. }
+  assert (to_lower (iota_to_string v) = iota_to_string v) as L.
+  { apply to_lower_stable. unfold iota_to_string. rewrite forallb_app. apply andb_true_intro. split; [reflexivity|]. exact (stable_of v Cv Up). }
+  assert (core_did_parse (iota_to_string v) = Ok (IOTA, v)) as P.
+  { change (iota_to_string v) with ([100; 105; 100; 58] ++ IOTA ++ [58] ++ v). apply core_did_complete; auto; discriminate. }
+  unfold iota_parse. rewrite L, P. change (list_eqb IOTA IOTA) with true. cbn [negb].
+  unfold iota_tag, iota_network in Tt, Nn. destruct (denorm v) as [n t]. cbn [fst snd] in Tt, Nn. rewrite Tt, Nn. cbn [negb].
+  rewrite (normalize_normal v Nv). reflexivity.
+Qed.
+
+Lemma not_upper_app a b : forallb not_upper (a ++ b) = true -> forallb not_upper b = true.
+Proof. rewrite forallb_app. intros H. apply andb_prop in H. tauto. Qed.
+
+(* C17: every accepted IOTA DID re-parses from its string form to the same value *)
+Theorem iota_reparse s v : iota_parse s = Ok v -> iota_parse (iota_to_string v) = Ok v.
+Proof.
+  intros H. destruct (iota_parse_shape s v H) as [Tt [Nn [Nv [Hv [i [P Ev]]]]]].
+  apply iota_parse_value; auto.
+  (* v is a suffix of the lower-cased input *)
+  destruct (core_did_parse_sound _ _ _ P) as [Es _].
+  pose proof (to_lower_not_upper s) as U. rewrite Es in U.
+  assert (forallb not_upper i = true) as Ui.
+  { apply not_upper_app in U. apply not_upper_app in U. apply not_upper_app in U. exact U. }
+  subst v. unfold iota_normalize. destruct (split_colon i) as [[n t]|] eqn:S; [|exact Ui].
+  destruct (list_eqb n IOTA); [|exact Ui].
+  apply split_colon_spec in S as [S _]. rewrite S in Ui. apply not_upper_app in Ui. cbn [forallb] in Ui. apply andb_prop in Ui. tauto.
+Qed.
+
+(* C17: IotaDID::new(tag bytes, network): the lower-case hex of the 32 bytes and a valid network name *)
+Definition is_lower_hexdig c := is_digit c || ((97 <=? c) && (c <=? 102)).
+Lemma lower_hex_hexdig c : is_lower_hexdig c = true -> is_hexdig c = true.
+Proof. unfold is_lower_hexdig, is_hexdig. intros H. apply orb_prop in H as [H|H]; rewrite H; rewrite ?orb_true_r; reflexivity. Qed.
+Lemma lower_hex_not_upper c : is_lower_hexdig c = true -> not_upper c = true.
+Proof.
+  unfold is_lower_hexdig, not_upper, is_upper, is_digit. intros H.
+  repeat match type of H with context [?a <=? ?b] => destruct (N.leb_spec a b); try lia end;
+  repeat match goal with |- context [?a <=? ?b] => destruct (N.leb_spec a b); try lia end; cbn in *; try discriminate; reflexivity.
+Qed.
+Lemma lowdig_not_upper c : is_lower c || is_digit c = true -> not_upper c = true.
+Proof.
+  unfold not_upper, is_upper, is_digit, is_lower. intros H.
+  repeat match type of H with context [?a <=? ?b] => destruct (N.leb_spec a b); try lia end;
+  repeat match goal with |- context [?a <=? ?b] => destruct (N.leb_spec a b); try lia end; cbn in *; try discriminate; reflexivity.
+Qed.
+
+Theorem iota_new_spec th n : length th = 64%nat -> forallb is_lower_hexdig th = true -> net_ok n = true ->
+  exists v, iota_new th n = Ok v /\ iota_tag v = 48 :: 120 :: th /\ iota_network v = n /\ iota_normal v
+            /\ (n = IOTA -> v = 48 :: 120 :: th) /\ (n <> IOTA -> v = n ++ 58 :: 48 :: 120 :: th).
+Proof.
+  intros Lt Ht Hn. set (t := 48 :: 120 :: th). set (i := n ++ 58 :: t).
+  destruct (net_class _ Hn) as [Cn [Nne Ncol]].
+  assert (tag_ok t = true) as Tt.
+  { unfold t, tag_ok. change (48 =? 48) with true. change (120 =? 120) with true. rewrite Lt. cbn [andb Nat.eqb].
+    change (Nat.eqb 64 64) with true. cbn [andb]. revert Ht. apply forallb_imp. exact lower_hex_hexdig. }
+  destruct (tag_class _ Tt) as [Ct Nt].
+  assert (forallb not_upper i = true) as Ui.
+  { unfold i, t. rewrite forallb_app. apply andb_true_intro. split.
+    - unfold net_ok in Hn. apply andb_prop in Hn as [_ Hc]. revert Hc. apply forallb_imp. exact lowdig_not_upper.
+    - cbn [forallb]. change (not_upper 58) with true. change (not_upper 48) with true. change (not_upper 120) with true. cbn [andb].
+      revert Ht. apply forallb_imp. exact lower_hex_not_upper. }
+  assert (forallb char_method_id i = true) as Ci.
+  { unfold i. rewrite forallb_app, Cn. cbn [forallb andb]. change (char_method_id 58) with true. cbn [andb]. exact Ct. }
+  assert (iota_parse (DID_IOTA_PREFIX ++ n ++ [58] ++ [48; 120] ++ th) = Ok (iota_normalize i)) as P.
+  { change (DID_IOTA_PREFIX ++ n ++ [58] ++ [48; 120] ++ th) with (iota_to_string i).
+    assert (to_lower (iota_to_string i) = iota_to_string i) as L.
+    { apply to_lower_stable. unfold iota_to_string. rewrite forallb_app. apply andb_true_intro. split; [reflexivity|]. exact (stable_of i Ci Ui). }
+    assert (core_did_parse (iota_to_string i) = Ok (IOTA, i)) as Pc.
+    { change (iota_to_string i) with ([100; 105; 100; 58] ++ IOTA ++ [58] ++ i). apply core_did_complete; auto; try discriminate.
+      unfold i. destruct n; discriminate. }
+    unfold iota_parse. rewrite L, Pc. change (list_eqb IOTA IOTA) with true. cbn [negb].
+    unfold denorm, i. rewrite (split_colon_app n t Ncol). rewrite Tt, Hn. reflexivity. }
+  exists (iota_normalize i). split; [unfold iota_new; rewrite P; reflexivity|].
+  unfold iota_normalize, i. rewrite (split_colon_app n t Ncol).
+  assert (split_colon t = None) as St.
+  { pose proof (tag_no_colon _ Tt) as Nc. destruct (split_colon t) as [[a b]|] eqn:X; [|reflexivity].
+    apply split_colon_spec in X as [X _]. rewrite X in Nc. rewrite existsb_app in Nc. cbn in Nc. rewrite orb_true_r in Nc. discriminate. }
+  destruct (list_eqb n IOTA) eqn:En.
+  - apply list_eqb_eq in En. unfold iota_tag, iota_network, iota_normal, denorm. rewrite St. cbn [fst snd].
+    repeat split; auto. intros X; contradiction.
+  - apply list_eqb_false in En. unfold iota_tag, iota_network, iota_normal, denorm. rewrite (split_colon_app n t Ncol). cbn [fst snd].
+    repeat split; auto. intros X; contradiction.
+Qed.
+
+(* totality: IotaDID::parse never panics on a percent-free input *)
